@@ -5,9 +5,11 @@ import vf
 def main():
     b = os.path.join(vf.REPO, "_build")
     if not os.path.exists(os.path.join(b, "build.ninja")):
-        rc, out = vf.sh(["cmake", "-G", "Ninja", "-S", vf.REPO, "-B", b, "-DCMAKE_BUILD_TYPE=RelWithDebInfo", "-DCMAKE_CXX_FLAGS=-Wno-error"], timeout=900)
+        rc, out = vf.sh(["cmake", "-G", "Ninja", "-S", vf.REPO, "-B", b, "-DCMAKE_BUILD_TYPE=RelWithDebInfo",
+                         "-DCMAKE_CXX_FLAGS_RELWITHDEBINFO=-O2 -g -DNDEBUG -Wno-error"], timeout=900)
         print(out[-1500:])
     rc, out = vf.sh(["ninja", "-k", "0", "-j%d" % vf.NCPU], cwd=b, timeout=7200)
+    rc, out = vf.sh(["ninja", "-k", "0", "-j%d" % vf.NCPU, "buildTests"], cwd=b, timeout=7200)
     rc, out = vf.sh(["ctest", "-j8", "--timeout", "900"], cwd=b, timeout=7200)
     passed = set(re.findall(r"Test\s+#\d+:\s+(\S+)\s+\.+\s+Passed", out))
     base = json.load(open("/root/.vp/BASELINE.json"))["stable_pass"] if os.path.exists("/root/.vp/BASELINE.json") else []
